@@ -125,11 +125,34 @@ def line_limit(ctx):
             rk = ret_kind(lf)
             if rk is None:
                 continue
-            s0 = conn.atom_truth(lf, lambda t: t[0] == "bin" and t[1] == "Eq" and look(t[2]) in (("deref", ("arg", 2)), ("arg", 2)) and const_of(t[3]) == 0)
-            e1024 = conn.atom_truth(lf, lambda t: t[0] == "bin" and t[1] == "Eq" and look(t[2]) == ("arg", 3) and const_of(t[3]) == bs)
-            # undetermined atoms are fine when a determined one already decides "not too long"
+            # what the path's conditions say about start == 0 and end == BUFFER_SIZE, by linear arithmetic over them (so
+            # `end - start == BUFFER_SIZE` under `start == 0`, a helper, or `>=` given end <= BUFFER_SIZE all read the same)
+            from ..lin import Lin, State
+            from ..panics import Tr
+            st = State()
+            tr = Tr(facts, fn, st)
+            for e in lf.events:
+                if e[0] == "cond":
+                    tr.assume_cond(e[3], e[4])
+            START, END = tr.lin(("deref", ("arg", 2))), tr.lin(("arg", 3))
+            st.add_le(END - Lin.const(bs))          # the receive window (checked below) keeps end <= BUFFER_SIZE
+            st.add_le(START.scale(-1))
+
+            def decided(expr):
+                if st.entails_eq(expr):
+                    return True
+                s2 = st.copy()
+                s2.add_eq(expr)
+                s2.sharpen()
+                return False if s2.inconsistent() else None
+            s0, e1024 = decided(START), decided(END - Lin.const(bs))
             toolong = (s0 is True and e1024 is True)
-            undecided = (s0 is None and e1024 is not False) or (e1024 is None and s0 is not False)
+            both = st.copy()
+            both.add_eq(START)
+            both.add_eq(END - Lin.const(bs))
+            both.sharpen()
+            # undetermined atoms are fine when the conditions already exclude "start == 0 and end == BUFFER_SIZE"
+            undecided = not toolong and not both.inconsistent()
             is_err = False
             if rk[0] == "Err":
                 e = look(rk[1])
@@ -144,6 +167,10 @@ def line_limit(ctx):
                 ctx.ob("R04.3", "too-long-rejected|%s" % key, False, "%s longer than the buffer is not rejected on this path" % label, fn.loc(lf.bb))
             else:
                 shifted = any(e[0] == "call" and e[3] == conn.SHIFT for e in lf.events)
+                if not shifted and s0 is True:
+                    # a line that already sits at the front needs no move: recording `read_cursor = end` is all shift_buffer_left(0, end) does
+                    cur = [e for e in lf.events if e[0] == "assign" and e[3] == "(*_1).read_cursor"]
+                    shifted = len(cur) == 1 and st.entails_eq(tr.lin(cur[0][4]) - END)
                 ctx.ob("R04.3", "partial-line-kept|%s" % key, shifted, "an incomplete %s that still fits is carried over (shift_buffer_left)" % label, fn.loc(lf.bb))
         ctx.ob("R04.3", "floor|%s" % label, seen >= 3, "%d no-CRLF paths classified in the %s parser (floor 3)" % (seen, label), fn.loc(0))
     # read_bytes hands the window buffer[read_cursor..] to the receive call
